@@ -51,7 +51,13 @@ def gen_torrent(rng, tag, tier, version=None, allow_dup_names=True):
             files[k] = (files[k][0], Blob.rand(1, 0))
         if all(len(b) == 0 for _, b in files):
             files[0] = (files[0][0], Blob.rand(5, pl + 1))
-    name = ("t" + tag) if not single else files[0][0]
+    # torrent names that look like something else to path handling: leading dots / dashes,
+    # blanks, a trailing dot, a backslash (all ordinary POSIX names)
+    name = (rng.choice(["t", "t", "t", ".t", "..t", "-t", "t.", ". t", ".hidden.", "t\\u", "~t"]) + tag) \
+        if not single else files[0][0]
+    if single and rng.random() < 0.3:
+        name = rng.choice([".", "..", "-", "~", ". "]) + name
+        files = [(name, files[0][1])]
     if not single and rng.random() < 0.12:
         files = [(name + "/" + p, b) for p, b in files]      # Album/Album/...
     elif not single and version != 2 and rng.random() < 0.08:
